@@ -51,6 +51,11 @@ type plan struct {
 	Bodies []body
 	// cluster mode
 	Cluster []cop
+	// RaftSnap: raft snapshot threshold of the cluster mode's meta nodes (0 =
+	// raft's default 8192, never reached); with a small one raft snapshots
+	// the state machine, truncates its log and brings lagging or restarted
+	// nodes up to date by installing the snapshot
+	RaftSnap int
 }
 
 func genSetup(t *rapid.T) []metacmd.Cmd {
@@ -317,7 +322,7 @@ func diff(a, b string) string {
 
 func describe(pl interface{}) interface{} {
 	p := pl.(*plan)
-	d := map[string]interface{}{"mode": p.Mode, "retention_autocreate": p.AutoRP}
+	d := map[string]interface{}{"mode": p.Mode, "retention_autocreate": p.AutoRP, "raft_snapshot_threshold": p.RaftSnap}
 	var log []string
 	for _, c := range p.Log {
 		log = append(log, c.Desc)
